@@ -15,21 +15,25 @@ package normalize
 // nesting / quote counter is at least 1.
 
 //@ func hasPattern
+//@   option check-nil yes
 //@   pure
 
 //@ func (*tokenizer).processOpenBracket
+//@   option check-nil yes
 //@   requires pattern != 0
 //@   modifies t.curPattern, t.counter, t.startPattern
 //@   ensures old(t.curPattern) == 0 ==> t.curPattern == pattern && t.counter == 1 && t.startPattern == pos
 //@   ensures old(t.curPattern) != 0 ==> t.curPattern == old(t.curPattern) && t.startPattern == old(t.startPattern) && t.counter >= old(t.counter)
 
 //@ func (*tokenizer).processCloseBracket
+//@   option check-nil yes
 //@   modifies t.counter, t.pos
 //@   ensures t.curPattern == old(t.curPattern) && t.startPattern == old(t.startPattern)
 //@   ensures result1 ==> t.pos == pos + 1 && result0.begin == t.startPattern && result0.end == t.pos && t.curPattern == pattern
 //@   ensures !result1 ==> t.pos == old(t.pos) && (old(t.counter) >= 1 ==> t.counter >= 1)
 
 //@ func (*tokenizer).processQuotes
+//@   option check-nil yes
 //@   requires pattern != 0
 //@   requires 0 <= pos && pos < len(t.data)
 //@   requires t.curPattern != 0 ==> t.counter >= 1
@@ -43,6 +47,7 @@ package normalize
 //@   loop 2 invariant t.counter == old(t.counter) && t.curPattern == old(t.curPattern) && t.startPattern == old(t.startPattern) && t.pos == old(t.pos)
 
 //@ func (*tokenizer).nextToken
+//@   option check-nil yes
 //@   requires 0 <= t.pos && t.pos <= len(t.data)
 //@   modifies t.curPattern, t.counter, t.startPattern, t.pos
 //@   ensures !result1 ==> old(t.pos) <= result0.begin && result0.begin <= result0.end && result0.end == t.pos && t.pos <= len(t.data)
@@ -51,6 +56,7 @@ package normalize
 //@   loop 1 invariant t.curPattern != 0 ==> old(t.pos) <= t.startPattern && t.startPattern < i && t.counter >= 1
 
 //@ func (*tokenNormalizer).normalizeByTokenizer
+//@   option check-nil yes
 //@   requires tok != nil && 0 <= tok.pos && tok.pos <= len(tok.data)
 //@   loop 1 invariant 0 <= prevEnd && prevEnd <= tok.pos && tok.pos <= len(tok.data)
 //@   loop 1 invariant !end ==> prevEnd <= t.begin && t.begin <= t.end && t.end == tok.pos
